@@ -2,6 +2,7 @@ import MesaModel.Model.Legacy
 import MesaModel.Model.LegacyNbhd
 import MesaModel.Model.LegacySelect
 import MesaModel.Model.LegacyPlaceRaw
+import MesaModel.Model.LegacyTruth
 /-!
 Line-protocol driver for the legacy-grid model (C08, C09, C18-legacy).  One output line per input line.
 Producer: harness/legacy_common.py.
@@ -13,6 +14,7 @@ grid ops (agents are 0..NAGENTS-1; `:` introduces the script of raw random draws
   place a x y (any ints: Python indexing, no wrapping) | remove a | move a x y | swap a b | mte a [R<k>] : r… (R<k>: empties set reordered) |
   mto a random|closest|other none|warning|error K x1 y1 … xK yK : r…
   empties | exists | isempty x y (any ints: Python indexing) | mask | agents | iter | get x y | dump
+  truth a b V | truth a l N   (the agent's class gets __bool__ returning V = 0|1 / __len__ returning N: bool(agent) = (value ≠ 0); an agent is truthy at first)
   geti x (grid[x]) | getl K x1 y1 … (grid[(x1,y1),…]) | gets IX IY (grid[ix, iy]; IX/IY = I<int> or S<start>/<stop>/<step>, _ = None)
   tadj x y (torus_adj) | oob x y (out_of_bounds) | coorditer (coord_iter(): x,y=content for every cell, in order)
   lset L x y v   (properties[name_L].set_cell((x, y), v); layers 0, 1 exist iff LAYERS = 1; any ints: numpy indexing)
@@ -78,7 +80,7 @@ def ix? (s : String) : Option Grid.Ix :=
 
 inductive St where
   | none
-  | grid (g : Grid) (hex : Bool) (nag : Nat) (nc : NCache) (hc : HCache) (ls : Layers)
+  | grid (g : Grid) (hex : Bool) (nag : Nat) (nc : NCache) (hc : HCache) (ls : Layers) (fz : Falsy)
   | net (t : Net) (nag : Nat)
 
 def dumpGrid (g : Grid) (nag : Nat) : String :=
@@ -162,10 +164,10 @@ def buildMasks (g : Grid) (hex : Bool) : NCache → List MaskSpec → NCache × 
 
 def distinctLayers (l : List Nat) : Bool := l.eraseDups.length = l.length
 
-def gridLine (g : Grid) (hex : Bool) (nag : Nat) (nc : NCache) (hc : HCache) (ls : Layers) (ws : List String) : St × String :=
-  let keep := St.grid g hex nag nc hc ls
+def gridLine (g : Grid) (hex : Bool) (nag : Nat) (nc : NCache) (hc : HCache) (ls : Layers) (fz : Falsy) (ws : List String) : St × String :=
+  let keep := St.grid g hex nag nc hc ls fz
   let bad : St × String := (keep, "bad-op")
-  let upd (r : Grid × Res) : St × String := (St.grid r.1 hex nag nc hc ls, fmtRes r.2)
+  let upd (r : Grid × Res) : St × String := (St.grid r.1 hex nag nc hc ls fz, fmtRes r.2)
   let okA (a : Nat) : Bool := a < nag
   let clc (k : String) (rest : List String) : St × String :=
     match k.toNat?, (ints? rest).bind pairs with
@@ -192,7 +194,7 @@ def gridLine (g : Grid) (hex : Bool) (nag : Nat) (nc : NCache) (hc : HCache) (ls
   | ["foreign", a, x, y] =>
     match a.toNat?, x.toInt?, y.toInt? with
     | some a, some x, some y =>
-      if okA a && inGridB g (x, y) && (g.pos a).isNone then (St.grid (g.foreignPos a (x, y)) hex nag nc hc ls, "ok") else bad
+      if okA a && inGridB g (x, y) && (g.pos a).isNone then (St.grid (g.foreignPos a (x, y)) hex nag nc hc ls fz, "ok") else bad
     | _, _, _ => bad
   | ["move", a, x, y] =>
     match a.toNat?, x.toInt?, y.toInt? with
@@ -219,8 +221,8 @@ def gridLine (g : Grid) (hex : Bool) (nag : Nat) (nc : NCache) (hc : HCache) (ls
       | some ps, some s => if okA a && ps.length = k then upd (g.moveToOneOf a ps (sel? sel) he s) else bad
       | _, _ => bad
     | _, _, _, _ => bad
-  | ["empties"] => let r := g.readEmpties; (St.grid r.1 hex nag nc hc ls, sp (fmtCoords r.2))
-  | ["exists"] => let r := g.existsEmpty; (St.grid r.1 hex nag nc hc ls, if r.2 then "ok 1" else "ok 0")
+  | ["empties"] => let r := g.readEmpties; (St.grid r.1 hex nag nc hc ls fz, sp (fmtCoords r.2))
+  | ["exists"] => let r := g.existsEmpty; (St.grid r.1 hex nag nc hc ls fz, if r.2 then "ok 1" else "ok 0")
   | ["isempty", x, y] =>
     match x.toInt?, y.toInt? with
     | some x, some y =>
@@ -252,7 +254,13 @@ def gridLine (g : Grid) (hex : Bool) (nag : Nat) (nc : NCache) (hc : HCache) (ls
     | some x, some y => (keep, if g.oob (x, y) then "ok 1" else "ok 0")
     | _, _ => bad
   | ["mask"] => (keep, sp (fmtBits (g.allCells.map g.mask)))
-  | ["agents"] => (keep, sp (fmtIds g.agentsList))
+  | ["agents"] => (keep, sp (fmtIds (g.agentsListT fz)))   -- `if not entry: continue` skips a falsy occupant of a single-occupancy cell
+  | ["truth", a, k, v] =>
+    -- the agent's class gets `__bool__` returning v (k = b, v = 0|1) or `__len__` returning v (k = l): bool(agent) = (v ≠ 0)
+    match a.toNat?, v.toNat? with
+    | some a, some v =>
+      if okA a && ((k = "b" && v ≤ 1) || k = "l") then (St.grid g hex nag nc hc ls (setTruth fz a (v != 0)), "ok") else bad
+    | _, _ => bad
   | ["iter"] => (keep, sp (" ".intercalate (g.allCells.map fun c => fmtCell (g.content c))))
   | ["get", x, y] =>
     match x.toInt?, y.toInt? with
@@ -267,7 +275,7 @@ def gridLine (g : Grid) (hex : Bool) (nag : Nat) (nc : NCache) (hc : HCache) (ls
     match l.toNat?, x.toInt?, y.toInt?, v.toInt? with
     | some l, some x, some y, some v =>
       let r := g.layerSet ls l (x, y) v
-      (St.grid g hex nag nc hc r.1, fmtRes r.2)
+      (St.grid g hex nag nc hc r.1 fz, fmtRes r.2)
     | _, _, _, _ => bad
   | "sel" :: rl :: oe :: rest =>
     match bool? rl, bool? oe, takeN rest with
@@ -280,7 +288,7 @@ def gridLine (g : Grid) (hex : Bool) (nag : Nat) (nc : NCache) (hc : HCache) (ls
           | some mss, some conds, some exts =>
             if !(distinctLayers (conds.map (·.layer)) && distinctLayers (exts.map (·.layer))) then bad else
             let (nc', ms) := buildMasks g hex nc mss
-            let st := St.grid g hex nag nc' hc ls
+            let st := St.grid g hex nag nc' hc ls fz
             match ms with
             | .error e => (st, fmtErr e)
             | .ok masks =>
@@ -306,7 +314,7 @@ def gridLine (g : Grid) (hex : Bool) (nag : Nat) (nc : NCache) (hc : HCache) (ls
     | some x, some y, some m, some ic, some r =>
       if op = "nbhd" || op = "inbhd" || op = "nbrs" || op = "inbrs" || op = "nmask" then
         let (nc', res) := getNbhd g.dim nc { pos := (x, y), moore := m, ic := ic, r := r }
-        let st := St.grid g hex nag nc' hc ls
+        let st := St.grid g hex nag nc' hc ls fz
         match res with
         | .error e => (st, fmtErr e)
         | .ok cells =>
@@ -321,7 +329,7 @@ def gridLine (g : Grid) (hex : Bool) (nag : Nat) (nc : NCache) (hc : HCache) (ls
     | some x, some y, some ic, some r =>
       if op = "hnbhd" || op = "ihnbhd" || op = "hnbrs" || op = "ihnbrs" then
         let (hc', cells) := getHexNbhd g.dim hc { pos := (x, y), ic := ic, r := r }
-        let st := St.grid g hex nag nc hc' ls
+        let st := St.grid g hex nag nc hc' ls fz
         if op = "hnbhd" || op = "ihnbhd" then (st, sp (fmtCoords cells))
         else match hexNeighbors g cells with
           | .ok l => (st, sp (fmtIds l))
@@ -396,7 +404,7 @@ def stepLine (st : St) (ws : List String) : St × String :=
       else if kind = "hexsingle" then some (false, true) else if kind = "hexmulti" then some (true, true) else none
     match km, w.toNat?, h.toNat?, bool? torus, bool? layers, cutoff.toNat?, nag.toNat? with
     | some (multi, hex), some w, some h, some torus, some layers, some cutoff, some nag =>
-      if w ≥ 1 && h ≥ 1 then (St.grid (init w h torus multi cutoff) hex nag [] [] (Layers.init (if layers then 2 else 0)), "ok") else (st, "bad-op")
+      if w ≥ 1 && h ≥ 1 then (St.grid (init w h torus multi cutoff) hex nag [] [] (Layers.init (if layers then 2 else 0)) [], "ok") else (st, "bad-op")
     | _, _, _, _, _, _, _ => (st, "bad-op")
   | "scenario" :: "net" :: n :: nag :: m :: rest =>
     match n.toNat?, nag.toNat?, m.toNat?, (nats? rest).bind npairs with
@@ -406,7 +414,7 @@ def stepLine (st : St) (ws : List String) : St × String :=
   | _ =>
     match st with
     | .none => (st, "bad-op")
-    | .grid g hex nag nc hc ls => gridLine g hex nag nc hc ls ws
+    | .grid g hex nag nc hc ls fz => gridLine g hex nag nc hc ls fz ws
     | .net t nag => netLine t nag ws
 
 partial def loop (h : IO.FS.Stream) (out : IO.FS.Stream) (st : St) : IO Unit := do
